@@ -544,3 +544,11 @@ package dnssec
 //@   assert at call middleware/resolver/dnssec.aggressiveDelegationBitmap#1: lastret("(middleware/resolver/dnssec.aggressiveCanonicalName).isStrictSubdomainOf") && arg0 == entries[i].rr.TypeBitMap
 //@   assert at call middleware/resolver/dnssec.typesSet#1: !lastret("middleware/resolver/dnssec.aggressiveDelegationBitmap") && arg0 == entries[i].rr.TypeBitMap && len(arg1) == 1 && arg1[0] == dns.TypeDNAME
 //@   assert at return#1: result1 != nil && (lastret("middleware/resolver/dnssec.aggressiveDelegationBitmap") || lastret("middleware/resolver/dnssec.typesSet"))
+//@
+//@ # ---- C14: canonical form of signed data. Only the RDATA names of the types RFC 4034 6.2 lists AS AMENDED by RFC 6840
+//@ # 5.1 are lower-cased - the list the reference library implements. NSEC's Next Domain Name, RRSIG's Signer's Name and
+//@ # every other type's RDATA are left as received (the frame forbids any other write), so a signature verdict cannot
+//@ # depend on a case change the signer did not make
+//@ func canonicalizeRdataNames
+//@   nosafety all
+//@   modifies heap(dns.NS.Ns), heap(dns.MD.Md), heap(dns.MF.Mf), heap(dns.CNAME.Target), heap(dns.SOA.Ns), heap(dns.SOA.Mbox), heap(dns.MB.Mb), heap(dns.MG.Mg), heap(dns.MR.Mr), heap(dns.PTR.Ptr), heap(dns.MINFO.Rmail), heap(dns.MINFO.Email), heap(dns.MX.Mx), heap(dns.RP.Mbox), heap(dns.RP.Txt), heap(dns.AFSDB.Hostname), heap(dns.RT.Host), heap(dns.SIG.RRSIG), heap(dns.PX.Map822), heap(dns.PX.Mapx400), heap(dns.NAPTR.Replacement), heap(dns.KX.Exchanger), heap(dns.SRV.Target), heap(dns.DNAME.Target)
